@@ -91,6 +91,12 @@ Theorem C11_hash_text_from_source :
     [120; 120; 104; 51; 58; 53; 56; 48; 102; 101; 99; 55; 97; 51; 50; 101; 99; 54; 57; 49; 97]%N.
 Proof. exact format_hash_from_source. Qed.
 
+From Peppi Require Proofs.ReaderTies.
+(* the reader model these theorems speak about is the one regenerated from the source on this run: one-shot read, every incremental
+   entry point, the event dispatch with the splitter, the Game Start wiring, the metadata reader (Proofs/ReaderTies.v reader_tied) *)
+Theorem C11_reader_is_the_source : ReaderTies.reader_tied.
+Proof. exact ReaderTies.reader_tied_holds. Qed.
+
 Print Assumptions C11_hash_covers_file.
 Print Assumptions C11_digest_any_fragmentation.
 Print Assumptions C11_schedule_independent.
@@ -103,3 +109,4 @@ Print Assumptions C11_read_call_from_source.
 Print Assumptions C11_option_defaults_from_source.
 Print Assumptions C11_skip_path_from_source.
 Print Assumptions C11_hash_text_from_source.
+Print Assumptions C11_reader_is_the_source.
